@@ -164,12 +164,22 @@ int run_case_wrapped(const uint8_t *data, size_t size, bool verbose,
     // an exception that is neither an oracle failure nor a clean rejection:
     // reported as a harness/crash failure (the supervisor treats property
     // "EXCEPTION" like a crash, never silently)
-    rc = 1;
-    r.last_fail_prop = "EXCEPTION";
-    r.last_fail_cls = std::string("exception_") + e.what();
-    r.last_fail_msg = e.what();
-    if (verbose)
-      ctx.log << "UNEXPECTED EXCEPTION: " << e.what() << "\n";
+    std::string cls = std::string("exception_") + e.what() + "@" + harness_name();
+    if (r.is_known(cls)) {
+      // a recorded finding that ends in an exception (e.g. a runaway allocation stopped by the
+      // memory cap): counted, the search continues
+      if (!r.frozen)
+        r.known[(r.selected_prop.empty() ? std::string("EXCEPTION") : r.selected_prop) + " " + cls]++;
+      if (verbose)
+        ctx.log << "KNOWN-FINDING class=" << cls << " : " << e.what() << "\n";
+    } else {
+      rc = 1;
+      r.last_fail_prop = "EXCEPTION";
+      r.last_fail_cls = cls;
+      r.last_fail_msg = e.what();
+      if (verbose)
+        ctx.log << "UNEXPECTED EXCEPTION: " << e.what() << "\n";
+    }
   }
   if (rc == 0 && ctx.nontrivial && !r.frozen) {
     r.nontrivial++;
